@@ -49,12 +49,18 @@ def judge(ctx, kind, n, m, res, rp):
     if kind in ("mean", "var"):
         check(ctx, f"pc_n({n})", lambda: prs.pc_n(n), res["pc"], "pc_n", rp)
         check(ctx, f"pc_n(np.array({nz}))", lambda: prs.pc_n(np.array(nz)), res["pc"], "pc_n", rp)
+        for dt in (np.int8, np.uint8, np.int16, np.int32):
+            if max(n) * max(max(n) - 1, 1) <= np.iinfo(dt).max:          # every term n_i (n_i - 1) fits: only the SUM could wrap
+                check(ctx, f"pc_n(np.array({nz}, dtype={dt.__name__}))", lambda: prs.pc_n(np.array(nz, dtype=dt)), res["pc"], f"pc_n/{dt.__name__}", rp)
         x = sample_with_counts(n, ctx.rng)
         check(ctx, f"pc(sample with counts {n})", lambda: prs.pc(x), res["pc"], "pc", rp)
     if kind == "var":
         check(ctx, f"varpc_n(np.array({n}))", lambda: prs.varpc_n(np.array(n)), res["var"], "varpc_n", rp)
         check(ctx, f"varpc_n(np.array({nz}))", lambda: prs.varpc_n(np.array(nz)), res["var"], "varpc_n", rp)
         check(ctx, f"stdpc_n(np.array({n}))", lambda: prs.stdpc_n(np.array(n)), res["var"], "stdpc_n", rp, sqrt=True)
+        for dt in (np.int16, np.int32):
+            if max(n) ** 3 <= np.iinfo(dt).max:
+                check(ctx, f"varpc_n(np.array({n}, dtype={dt.__name__}))", lambda: prs.varpc_n(np.array(n, dtype=dt)), res["var"], f"varpc_n/{dt.__name__}", rp)
         x = sample_with_counts(n, ctx.rng)
         check(ctx, f"stdpc(sample with counts {n})", lambda: prs.stdpc(x), res["var"], "stdpc", rp, sqrt=True)
     if kind == "cross":
@@ -96,6 +102,8 @@ def run(ctx):
         N = ctx.rng.randint(4, 12)
         cuts = sorted(ctx.rng.randint(0, N) for _ in range(K - 1))
         n = [b - a for a, b in zip([0] + cuts, cuts + [N])]
+        if k == "mean" and sid % 4 == 0:
+            n = [ctx.rng.randint(8, 11) for _ in range(ctx.rng.randint(2, 4))]      # terms fit int8, their sum does not
         m = []
         if k == "cross":
             N2 = ctx.rng.randint(1, 12)
